@@ -70,7 +70,7 @@ def main():
             ok = ok and caught
             print('%-10s %-7s %s' % (tag, 'CAUGHT' if caught else ('ERROR ' + res.get('_error', '') if '_error' in res else 'MISSED rc=%s' % own.get('rc')),
                                      own.get('first', '')[:150]), flush=True)
-    path = os.path.join(HERE, 'seeded', 'RESULTS.json')
+    path = os.environ.get('SEEDED_RESULTS') or os.path.join(HERE, 'seeded', 'RESULTS.json')
     old = {}
     if os.path.exists(path):
         old = json.load(open(path))
